@@ -331,6 +331,90 @@ fn dummy_execution(report: &Report, tier: Tier) -> (usize, usize) {
     (cases, distinct.len())
 }
 
+/// Two versions of one slot in flight at once (one streamed in by dissemination and tracked by slot
+/// only, one repaired and tracked by its full id): each reports its own fold, and a child is seeded
+/// from the version it names as parent.
+fn same_slot_versions(report: &Report) -> usize {
+    let txseqs: Vec<Vec<Vec<u8>>> = vec![vec![], vec![vec![b'a']], vec![vec![b'b']], vec![vec![b'a'], vec![b'b']], vec![vec![b'b'], vec![b'a']]];
+    let genesis = as_hash(&alpenglow::crypto::merkle::GENESIS_BLOCK_HASH);
+    let slot = Slot::new(5);
+    let id_p: BlockId = (slot, bh("exec-version-streamed"));
+    let id_k: BlockId = (slot, bh("exec-version-repaired"));
+    let id_c: BlockId = (Slot::new(6), bh("exec-child"));
+    let mut cases = 0;
+    for tp in &txseqs {
+        for tk in &txseqs {
+            for pending_first in [true, false] {
+                for split in [false, true] {
+                    for child_on_known in [true, false] {
+                        for end_known_first in [true, false] {
+                            cases += 1;
+                            let (tx, mut rx) = mpsc::channel(64);
+                            let mut eng = DummyExecution::new(tx);
+                            let p = InProgressBlock::Pending(slot);
+                            let k = InProgressBlock::Known(id_k.clone());
+                            if pending_first {
+                                eng.begin_block(p.clone(), None);
+                                eng.begin_block(k.clone(), None);
+                            } else {
+                                eng.begin_block(k.clone(), None);
+                                eng.begin_block(p.clone(), None);
+                            }
+                            if split {
+                                for t in 0..tp.len().max(tk.len()) {
+                                    if let Some(x) = tp.get(t) {
+                                        eng.execute_transactions(p.clone(), vec![Transaction(x.clone())]);
+                                    }
+                                    if let Some(x) = tk.get(t) {
+                                        eng.execute_transactions(k.clone(), vec![Transaction(x.clone())]);
+                                    }
+                                }
+                            } else {
+                                eng.execute_transactions(k.clone(), tk.iter().cloned().map(Transaction).collect());
+                                eng.execute_transactions(p.clone(), tp.iter().cloned().map(Transaction).collect());
+                            }
+                            let want_p = fold(&genesis, tp);
+                            let want_k = fold(&genesis, tk);
+                            let parent = if child_on_known { id_k.clone() } else { id_p.clone() };
+                            let want_c = fold(if child_on_known { &want_k } else { &want_p }, &[vec![b'c']]);
+                            eng.begin_block(InProgressBlock::Pending(Slot::new(6)), Some(parent));
+                            eng.execute_transactions(InProgressBlock::Pending(Slot::new(6)), vec![Transaction(vec![b'c'])]);
+                            if end_known_first {
+                                eng.end_block(id_k.clone());
+                                eng.end_block(id_p.clone());
+                            } else {
+                                eng.end_block(id_p.clone());
+                                eng.end_block(id_k.clone());
+                            }
+                            eng.end_block(id_c.clone());
+                            let mut got: BTreeMap<BlockId, (usize, StateCommitment)> = BTreeMap::new();
+                            while let Ok(ev) = rx.try_recv() {
+                                let ExecutionEvent::BlockExecuted { block_id, result } = ev;
+                                if let Ok(r) = result {
+                                    got.insert(block_id, (r.tx_count, r.state_commitment));
+                                }
+                            }
+                            let replay = json!({"streamed_txs": tp, "repaired_txs": tk, "pending_first": pending_first, "split": split, "child_on_repaired": child_on_known, "end_repaired_first": end_known_first});
+                            for (name, id, want, n) in [("repaired (full id)", &id_k, &want_k, tk.len()), ("streamed (slot only)", &id_p, &want_p, tp.len()), ("child", &id_c, &want_c, 1)] {
+                                let w: StateCommitment = want.clone().into();
+                                match got.get(id) {
+                                    Some((cnt, c)) if *cnt == n && *c == w => {}
+                                    other => report.violation(
+                                        "C20:engine-commitment-not-fold-of-parent-and-transactions:two-versions-of-one-slot",
+                                        format!("{name} version: reported {:?} transactions / a commitment that is not the fold of its parent's commitment and its own {n} transactions", other.map(|o| o.0)),
+                                        replay.clone(),
+                                    ),
+                                }
+                            }
+                        }
+                    }
+                }
+            }
+        }
+    }
+    cases
+}
+
 pub fn run(tier: Tier) -> i32 {
     let report = Report::new("C20", tier, "model_checking");
     let mut fams = Vec::new();
@@ -341,7 +425,9 @@ pub fn run(tier: Tier) -> i32 {
     let transitions: usize = fams.iter().map(|f| f["transitions"].as_u64().unwrap() as usize).sum();
     let capped = fams.iter().any(|f| f["capped"].as_bool().unwrap());
     let (cases, distinct) = dummy_execution(&report, tier);
-    println!("  dummy-execution: cases={cases} distinct commitments={distinct}");
+    let versions = same_slot_versions(&report);
+    let cases = cases + versions;
+    println!("  dummy-execution: cases={cases} (two-versions-of-one-slot {versions}) distinct commitments={distinct}");
     let cov = json!({
         "states": states,
         "transitions": transitions,
@@ -351,7 +437,7 @@ pub fn run(tier: Tier) -> i32 {
         "families": fams,
         "dummy_execution_cases": cases,
         "dummy_execution_distinct_commitments": distinct,
-        "samples": [fams[0]["sample"].clone(), {"dummy_execution": "all block trees of up to 3 (thorough 4) blocks with parent in {none, unknown, any earlier block}, transaction sequences over {a,b} of length <= 2, Known/Pending ids, transactions in one call or one per call, sibling executions interleaved"}],
+        "samples": [fams[0]["sample"].clone(), {"dummy_execution": "all block trees of up to 3 (thorough 4) blocks with parent in {none, unknown, any earlier block}, transaction sequences over {a,b} of length <= 2, Known/Pending ids, transactions in one call or one per call, sibling executions interleaved; plus two versions of one slot in flight at once (slot-only and full-id tracking, both begin/end orders, child on either)"}],
     });
     report.finish(cov)
 }
